@@ -199,6 +199,13 @@ def build(ctx, incdir):
     for call, tag in (("SubP | [0, 1]", "kw-missing-all"), ("SubP(a=1) | [0, 1]", "kw-missing-one"), ("SubP(a=1, b=2, c=3) | [0, 1]", "kw-extra"), ("SubP(a=1, bb=2) | [0, 1]", "kw-misspelt"),
                       ("SubP(a=1, b=2) | 0", "arity-few"), ("SubP(a=1, b=2) | [0, 1, 2]", "arity-many")):
         cases.append(("include-" + tag, H + incp + "\n" + call + "\n", None))
+    # the same faulty calls AFTER a correct application of the same program (as a statement, and inside a loop): every
+    # application is checked, not the first one only
+    for good, incl, bads in (("Sub2 | [3, 4]", inc, ("Sub2 | 0", "Sub2 | [0, 1, 2]", "Sub2(a=1) | [0, 1]")), ("Sparse | [4, 5]", incs, ("Sparse | [4, 5, 6]", "Sparse | 4")),
+                             ("SubP(a=1, b=2) | [0, 1]", incp, ("SubP(a=1) | [0, 1]", "SubP(a=1, b=2, c=3) | [0, 1]", "SubP(a=1, b=2) | 0", "SubP(a=1, b=2) | [0, 1, 2]", "SubP | [0, 1]"))):
+        for bad in bads:
+            cases.append(("include-after-correct-call", H + incl + "\n" + good + "\n" + bad + "\n", None))
+            cases.append(("include-after-correct-calls-in-loop", H + incl + "\nfor int r in 0:2\n    " + good + "\nG | 0\n" + bad + "\n", None))
     return cases
 
 
@@ -241,7 +248,7 @@ def run(ctx):
             V.add(r[0], {"tag": c[0], "src": c[1], "expect": c[2], "needs_includes": "include" in c[0]}, r[1])
     cov = {"evaluations": len(cases) + ng, "distinct_nontrivial": len(set(c[1] for c in cases)) + ng, "grammar_driven_non_integer_mode_statements": ng, "grammar_driven_max_tokens": L,
            "rule": "valid prefix x valid suffix x exactly one fault: undefined name in %d slots (x %d names) and 8 metadata-option slots (keyword and positional values); %d reserved names x %d declaration forms; %d non-integer mode forms x 2 statement shapes; "
-                   "%d complex expressions x %d int/float slots; wrong-type loop values x 3 bracket styles; 10 mismatched include calls. non-trivial = every case (each has exactly one fault); distinct by source text"
+                   "%d complex expressions x %d int/float slots; wrong-type loop values x 3 bracket styles; 13 mismatched include calls, each also after correct applications of the same program. non-trivial = every case (each has exactly one fault); distinct by source text"
                    % (len(UND), len(NAMES), len(RESERVED), len(DECLS), len(MODES), len(CPLX), len(CSLOTS)),
            "samples": [c[1] for c in common.sample(cases, 5)], "exhaustive": True, "by_fault_class": dict(fam), "include_family_sanity": include_sanity}
     return {"coverage": cov, "violations": V.records(),
